@@ -149,6 +149,8 @@ def values(ty, rng, n):
     vs += [{"kind": "fresh", "score": common.frac_str(g)} for g in grid]
     if ty == "Log":
         vs += [{"kind": "fresh", "score": x} for x in ("-800", "-1000", "-745", "-30")]   # differences beyond the exp overflow threshold
+        # gaps of 16–20 nats: the smaller operand is below 1e-7 of the larger one but far above float64 resolution (e^-36)
+        vs += [{"kind": "fresh", "score": x} for x in ("-16", "-17", "-16", "-20")]
     if ty in ("MaxPlus", "Log"):
         vs.append({"kind": "fresh", "score": "-inf"})
         vs += [{"kind": "fresh", "score": common.frac_str(-g)} for g in GRID if g > 0]
